@@ -712,8 +712,11 @@ class NDNApp:
         name = enc.Name.normalize(name)
 
         def decorator(func: IntHandler):
-            self._autoreg_routes.append(name)
             self.attach_handler(name, func, validator)
+            # Remembered once (also when the route is declared again after its handler was detached),
+            # and only when the declaration was not refused
+            if name not in self._autoreg_routes:
+                self._autoreg_routes.append(name)
             if self.face.running:
                 aio.create_task(self.register(name))
             return func
